@@ -30,8 +30,8 @@ theorem sth_faithful (b : Backend) (hts : b.tsNanos < 2 ^ 64) (hsz : b.leaves.le
     (served leafH nodeH emptyH b).ts = b.tsNanos / 1000000 ∧
     (served leafH nodeH emptyH b).root = mth leafH nodeH emptyH b.values := by
   refine ⟨?_, ?_, rfl⟩
-  · simp only [served, Gen.sthTreeSize, U64.wrap]; omega
-  · simp only [served, Gen.sthTimestamp, U64.wrap, U64.div]
+  · simp only [served, headOf, Backend.rpcLatestRoot, Gen.sthTreeSize, U64.wrap]; omega
+  · simp only [served, headOf, Backend.rpcLatestRoot, Gen.sthTimestamp, U64.wrap, U64.div]
     have h0 : (0 : Int) ≤ (b.tsNanos : Int) := Int.natCast_nonneg _
     have h1 : (b.tsNanos : Int) < 2 ^ 64 := by exact_mod_cast hts
     omega
@@ -104,7 +104,8 @@ theorem signHead_eq (sign : Msg → Nat → Sig) (c : Cache Msg Sig) (i : Msg) (
     signHead sign c i n = match cget c i with
       | some s => (c, s)
       | none => (cset i (sign i n), sign i n) := by
-  unfold signHead cget cset
+  rw [cget_spec]
+  unfold signHead cset
   cases c with
   | none => rfl
   | some cs =>
@@ -126,7 +127,7 @@ theorem cache_atomic_get_sound (verify : Msg → Sig → Bool) (evs : List (Cach
     | get j =>
       simp only [runCache, List.mem_cons, Prod.mk.injEq] at h
       rcases h with ⟨rfl, hg⟩ | h
-      · unfold cget at hg
+      · rw [cget_spec] at hg
         cases c with
         | none => simp at hg
         | some cs =>
@@ -156,7 +157,7 @@ theorem two_step_get_unsound :
   refine ⟨fun m s => s == m + 100, some (1, 101), some (2, 102), 102, ?_, ?_, rfl, ?_, ?_⟩
   · intro i s h; cases h; rfl
   · intro i s h; cases h; rfl
-  · simp [containsThenRead, cget]
+  · simp [containsThenRead, cget_spec]
   · rfl
 
 /-- the same schedule with the atomic get: the stale request simply misses -/
@@ -172,104 +173,149 @@ section
 variable {Hash : Type} (leafH : Bytes → Hash) (nodeH : Hash → Hash → Hash) (emptyH : Hash)
 variable [DecidableEq Hash]
 
-/-! ## consistency_links -/
+/-! ## consistency_links
+
+The handler is `handleConsistency rpc first second`: parse guard (`Gen.parseGetSTHConsistencyRange`),
+`first = 0` shortcut (`Gen.consNeedsBackend`), the request `Gen.reqGetConsistencyProof first second`
+(**which parameter goes to FirstTreeSize / SecondTreeSize**), the tree-size guard
+(`Gen.consRootTooSmall`) and the relay (`Gen.relayConsistency`) — all regenerated from handlers.go;
+`rpc` is the assumed backend contract `Backend.rpcConsistency`. Exchanging first/second in the request
+literal exchanges the components of `Gen.reqGetConsistencyProof` and the proofs below fail. -/
+
+/-- **consistency, any in-range parameters.** In any backend state, for any `m ≤ n ≤ tree size`
+    (`n` an int64), the handler serves a proof that makes the library verifier accept the root of the
+    first `m` leaves as old root and the root of the first `n` leaves as new root. -/
+theorem consistency_at (b : Backend) (m n : Nat) (hmn : m ≤ n) (hn : n ≤ b.leaves.length) (h63 : n < 2 ^ 63) :
+    ∃ p, getConsistency leafH nodeH emptyH b m n = some p ∧
+      verifyConsistency nodeH m n p (mth leafH nodeH emptyH (b.values.take m)) (mth leafH nodeH emptyH (b.values.take n)) = true := by
+  have hvl : (b.values.take n).length = n := by simp [Backend.values]; omega
+  have hc := verifyConsistency_complete leafH nodeH emptyH (b.values.take n) m (by rw [hvl]; exact hmn)
+  rw [hvl, List.take_take, Nat.min_eq_left hmn] at hc
+  unfold getConsistency handleConsistency Gen.parseGetSTHConsistencyRange
+  have e1 : ¬ ((m : Int) < 0 ∨ (n : Int) < 0) := by omega
+  have e2 : ¬ ((n : Int) < (m : Int)) := by omega
+  simp only [Bool.false_eq_true, if_false, Bool.or_eq_true, decide_eq_true_eq, e1, e2]
+  by_cases h0 : m = 0
+  · subst h0
+    refine ⟨[], by simp [Gen.consNeedsBackend], ?_⟩
+    simpa using hc
+  · have hm0 : ¬ ((m : Int) = 0) := by omega
+    have hq : Gen.reqGetConsistencyProof (m : Int) (n : Int) = ((m : Int), (n : Int)) := rfl
+    have hr : ¬ (((m : Int) ≤ 0) ∨ ((n : Int) < (m : Int))) := by omega
+    have hsz : ¬ b.leaves.length < n := by omega
+    have hwrap : U64.wrap (n : Int) = (n : Int) := by unfold U64.wrap; omega
+    have hguard : Gen.consRootTooSmall (b.leaves.length : Int) (n : Int) = false := by
+      simp only [Gen.consRootTooSmall, hwrap, decide_eq_false_iff_not]; omega
+    simp only [Gen.consNeedsBackend, ne_eq, hm0, not_false_eq_true, decide_true, Bool.not_true, Bool.false_eq_true, if_false,
+      hq, Backend.rpcConsistency, hr, Int.toNat_natCast, hsz, hguard, Gen.relayConsistency]
+    refine ⟨_, rfl, ?_⟩
+    simp only [h0, false_or] at hc
+    exact hc
 
 /-- **consistency_links.** Take any state `b1`, any later state `b2 = run b1 ops12` and any still later
     state `b3 = run b2 ops23` (the moment the proof is requested). The proof the front end serves at
     `b3` for `first = |b1|`, `second = |b2|` makes the library verifier accept **exactly** the root
-    served at `b1` as old root and the root served at `b2` as new root (the statement is false with
-    the two exchanged, see the example below). -/
-theorem consistency_links (b1 : Backend) (ops12 ops23 : List Op) :
+    served at `b1` as old root and the root served at `b2` as new root. -/
+theorem consistency_links (b1 : Backend) (ops12 ops23 : List Op) (h63 : (run b1 ops12).leaves.length < 2 ^ 63) :
     ∃ p, getConsistency leafH nodeH emptyH (run (run b1 ops12) ops23) b1.leaves.length (run b1 ops12).leaves.length = some p ∧
       verifyConsistency nodeH b1.leaves.length (run b1 ops12).leaves.length p
         (b1.root leafH nodeH emptyH) ((run b1 ops12).root leafH nodeH emptyH) = true := by
-  obtain ⟨x, hx⟩ := leaves_run ops12 b1
-  obtain ⟨y, hy⟩ := leaves_run ops23 (run b1 ops12)
-  have hlen : b1.leaves.length ≤ (run b1 ops12).leaves.length := by rw [hx]; simp
-  have hlen3 : (run b1 ops12).leaves.length ≤ (run (run b1 ops12) ops23).leaves.length := by rw [hy]; simp
-  have hv3 : (run (run b1 ops12) ops23).values.take (run b1 ops12).leaves.length = (run b1 ops12).values := by
-    simp only [Backend.values, hy, List.map_append]
-    rw [List.take_append_of_le_length (by simp)]
-    rw [List.take_of_length_le (by simp)]
-  have hv1 : (run b1 ops12).values.take b1.leaves.length = b1.values := by
-    simp only [Backend.values, hx, List.map_append]
-    rw [List.take_append_of_le_length (by simp)]
-    rw [List.take_of_length_le (by simp)]
-  have hvl : (run b1 ops12).values.length = (run b1 ops12).leaves.length := by simp [Backend.values]
-  have hc := verifyConsistency_complete leafH nodeH emptyH (run b1 ops12).values b1.leaves.length (by rw [hvl]; exact hlen)
-  rw [hv1, hvl] at hc
-  unfold getConsistency Gen.parseGetSTHConsistencyRange
-  have e1 : ¬ ((b1.leaves.length : Int) < 0 ∨ ((run b1 ops12).leaves.length : Int) < 0) := by omega
-  have e2 : ¬ (((run b1 ops12).leaves.length : Int) < (b1.leaves.length : Int)) := by omega
-  simp only [Bool.false_eq_true, if_false, Bool.or_eq_true, decide_eq_true_eq, e1, e2, Int.toNat_natCast]
-  by_cases h0 : b1.leaves.length = 0
-  · have h0' : ((b1.leaves.length : Nat) : Int) = 0 := by omega
-    simp only [h0', if_true]
-    refine ⟨[], rfl, ?_⟩
-    simp only [h0, true_or, if_true] at hc
-    show verifyConsistency nodeH b1.leaves.length _ _ (mth leafH nodeH emptyH b1.values) (mth leafH nodeH emptyH (run b1 ops12).values) = true
-    rw [h0]; exact hc
-  · have h0' : ¬ ((b1.leaves.length : Nat) : Int) = 0 := by omega
-    have h3 : ¬ (run (run b1 ops12) ops23).leaves.length < (run b1 ops12).leaves.length := by omega
-    simp only [h0', if_false, h3]
-    refine ⟨_, rfl, ?_⟩
-    rw [hv3]
-    simp only [h0, false_or] at hc
-    exact hc
+  obtain ⟨hv12, hl12⟩ := values_prefix b1 ops12
+  obtain ⟨hv23, hl23⟩ := values_prefix (run b1 ops12) ops23
+  obtain ⟨p, hp, hver⟩ := consistency_at leafH nodeH emptyH (run (run b1 ops12) ops23) b1.leaves.length
+    (run b1 ops12).leaves.length hl12 hl23 h63
+  refine ⟨p, hp, ?_⟩
+  rw [hv23] at hver
+  have : (run (run b1 ops12) ops23).values.take b1.leaves.length = b1.values := by
+    rw [← hv12, ← hv23, List.take_take, Nat.min_eq_left hl12]
+  rw [this] at hver
+  exact hver
 
 /-! ## inclusion_ok -/
 
-/-- **inclusion_ok (get-entry-and-proof).** For any state `b1` (whose tree head may have been served),
-    any later state `b2` and any index `i < |b1|`: get-entry-and-proof for `(i, |b1|)` at `b2` serves
-    the `i`-th entry of `b1` and an audit path that verifies against the root served at `b1`. -/
-theorem inclusion_ok (b1 : Backend) (ops : List Op) (i : Nat) (hi : i < b1.leaves.length) :
-    ∃ l p, getEntryAndProof leafH nodeH emptyH (run b1 ops) i b1.leaves.length = some (l, p) ∧
+/-- **inclusion, any in-range parameters (get-entry-and-proof).** In any backend state whose leaves are
+    non-empty byte strings, for any `i < n ≤ tree size`: the handler (request
+    `Gen.reqGetEntryAndProof leaf_index tree_size`, guard, relay `Gen.relayEntryAndProof`) serves the
+    `i`-th stored entry — its `LeafValue` as leaf_input, its `ExtraData` as extra_data — with an audit
+    path that verifies against the root of the first `n` leaves. -/
+theorem inclusion_at (b : Backend) (i n : Nat) (hi : i < n) (hn : n ≤ b.leaves.length) (h63 : n < 2 ^ 63)
+    (hne : ∀ l ∈ b.leaves, l.value ≠ []) :
+    ∃ l p, getEntryAndProof leafH nodeH emptyH b i n = some (l.value, l.extra, p) ∧ b.leaves[i]? = some l ∧
+      verifyInclusion nodeH i n (leafH l.value) p (mth leafH nodeH emptyH (b.values.take n)) = true := by
+  have hil : i < b.leaves.length := by omega
+  have hl : b.leaves[i]? = some b.leaves[i] := List.getElem?_eq_getElem hil
+  have hvl : (b.values.take n).length = n := by simp [Backend.values]; omega
+  have hd : (b.values.take n)[i]? = some b.leaves[i].value := by
+    rw [List.getElem?_take]; simp [hi, Backend.values, List.getElem?_map, hl]
+  have hver := verifyInclusion_complete leafH nodeH emptyH (b.values.take n) i b.leaves[i].value hd
+  rw [hvl] at hver
+  refine ⟨b.leaves[i], path leafH nodeH emptyH i (b.values.take n), ?_, hl, hver⟩
+  unfold getEntryAndProof handleEntryAndProof Gen.parseGetEntryAndProofParams
+  have e1 : ¬ ((n : Int) ≤ 0) := by omega
+  have e2 : ¬ ((i : Int) < 0) := by omega
+  have e3 : ¬ ((i : Int) ≥ (n : Int)) := by omega
+  have hq : Gen.reqGetEntryAndProof (i : Int) (n : Int) = ((i : Int), (n : Int)) := rfl
+  have hr : ¬ (((n : Int) ≤ 0) ∨ ((i : Int) < 0) ∨ ((i : Int) ≥ (n : Int))) := by omega
+  have hsz : ¬ b.leaves.length < n := by omega
+  have hwrap : U64.wrap (n : Int) = (n : Int) := by unfold U64.wrap; omega
+  have hguard : Gen.entryAndProofRootTooSmall (b.leaves.length : Int) (n : Int) = false := by
+    simp only [Gen.entryAndProofRootTooSmall, hwrap, decide_eq_false_iff_not]; omega
+  have hv : b.leaves[i].value.isEmpty = false := by
+    have := hne b.leaves[i] (List.getElem_mem hil)
+    cases hvv : b.leaves[i].value with
+    | nil => exact absurd hvv this
+    | cons _ _ => rfl
+  have hpe : (decide ((n : Int) > 1) && (path leafH nodeH emptyH i (b.values.take n)).isEmpty) = false := by
+    by_cases h1 : n ≤ 1
+    · have : ¬ ((n : Int) > 1) := by omega
+      simp [this]
+    · have := path_ne_nil leafH nodeH emptyH i (b.values.take n) (by rw [hvl]; omega)
+      cases hpp : path leafH nodeH emptyH i (b.values.take n) with
+      | nil => exact absurd hpp this
+      | cons _ _ => simp
+  simp only [decide_eq_true_eq, e1, e2, e3, if_false, hq, Backend.rpcEntryAndProof, hr, Int.toNat_natCast, hsz, hguard,
+    Bool.false_eq_true, hl, hv, hpe, Gen.relayEntryAndProof, or_self]
+
+/-- **inclusion_ok.** For any state `b1` (whose tree head may have been served), any later state `b2`
+    and any index `i < |b1|`: get-entry-and-proof for `(i, |b1|)` at `b2` serves the `i`-th entry of
+    `b1` and an audit path that verifies against the root served at `b1`. -/
+theorem inclusion_ok (b1 : Backend) (ops : List Op) (i : Nat) (hi : i < b1.leaves.length) (h63 : b1.leaves.length < 2 ^ 63)
+    (hne : ∀ l ∈ (run b1 ops).leaves, l.value ≠ []) :
+    ∃ l p, getEntryAndProof leafH nodeH emptyH (run b1 ops) i b1.leaves.length = some (l.value, l.extra, p) ∧
       b1.leaves[i]? = some l ∧
       verifyInclusion nodeH i b1.leaves.length (leafH l.value) p (b1.root leafH nodeH emptyH) = true := by
-  obtain ⟨x, hx⟩ := leaves_run ops b1
-  have hv : (run b1 ops).values.take b1.leaves.length = b1.values := by
-    simp only [Backend.values, hx, List.map_append]
-    rw [List.take_append_of_le_length (by simp)]
-    rw [List.take_of_length_le (by simp)]
-  have hl : b1.leaves[i]? = some b1.leaves[i] := List.getElem?_eq_getElem hi
-  refine ⟨b1.leaves[i], path leafH nodeH emptyH i b1.values, ?_, hl, ?_⟩
-  · unfold getEntryAndProof Gen.parseGetEntryAndProofParams
-    have e1 : ¬ ((b1.leaves.length : Int) ≤ 0) := by omega
-    have e2 : ¬ ((i : Int) < 0) := by omega
-    have e3 : ¬ ((i : Int) ≥ (b1.leaves.length : Int)) := by omega
-    have e4 : ¬ (run b1 ops).leaves.length < b1.leaves.length := by rw [hx]; simp
-    simp only [decide_eq_true_eq, e1, e2, e3, if_false, Int.toNat_natCast, e4]
-    rw [hx, List.getElem?_append_left hi, hl]
-    simp only [Option.some.injEq, Prod.mk.injEq, true_and]
-    rw [hv]
-  · have hvl : b1.values.length = b1.leaves.length := by simp [Backend.values]
-    have hd : b1.values[i]? = some b1.leaves[i].value := by
-      simp [Backend.values, List.getElem?_map, hl]
-    have := verifyInclusion_complete leafH nodeH emptyH b1.values i b1.leaves[i].value hd
-    rw [hvl] at this
-    exact this
+  obtain ⟨hv, hle⟩ := values_prefix b1 ops
+  obtain ⟨l, p, h1, h2, h3⟩ := inclusion_at leafH nodeH emptyH (run b1 ops) i b1.leaves.length hi hle h63 hne
+  rw [hv] at h3
+  rw [leaves_prefix b1 ops i hi] at h2
+  exact ⟨l, p, h1, h2, h3⟩
 
-/-- **inclusion_ok (get-proof-by-hash).** The leaf hash of any entry of `b1` is found at the lowest
-    index holding that hash, with an audit path that verifies against the root served at `b1`. -/
-theorem proofByHash_ok (b1 : Backend) (ops : List Op) (i : Nat) (l : Leaf) (hl : b1.leaves[i]? = some l) :
+/-- **inclusion_ok (get-proof-by-hash).** The leaf hash of any entry of `b1` is found, at any later
+    state, at the lowest index holding that hash (the handler relays the **first** proof of the reply,
+    `Gen.relayProofByHash`; request `Gen.reqGetInclusionProofByHash hash tree_size`), with an audit
+    path that verifies against the root served at `b1`. -/
+theorem proofByHash_ok (b1 : Backend) (ops : List Op) (i : Nat) (l : Leaf) (hl : b1.leaves[i]? = some l)
+    (h63 : b1.leaves.length < 2 ^ 63) :
     ∃ j p, getProofByHash leafH nodeH emptyH (run b1 ops) (leafH l.value) b1.leaves.length = some (j, p) ∧ j ≤ i ∧
       (∃ l', b1.leaves[j]? = some l' ∧ leafH l'.value = leafH l.value) ∧
       verifyInclusion nodeH j b1.leaves.length (leafH l.value) p (b1.root leafH nodeH emptyH) = true := by
-  obtain ⟨x, hx⟩ := leaves_run ops b1
+  obtain ⟨hv, hle⟩ := values_prefix b1 ops
   have hi : i < b1.leaves.length := by
     rcases Nat.lt_or_ge i b1.leaves.length with h | h
     · exact h
     · simp [List.getElem?_eq_none h] at hl
-  have hv : (run b1 ops).values.take b1.leaves.length = b1.values := by
-    simp only [Backend.values, hx, List.map_append]
-    rw [List.take_append_of_le_length (by simp)]
-    rw [List.take_of_length_le (by simp)]
   have hvl : b1.values.length = b1.leaves.length := by simp [Backend.values]
   have hvi : b1.values[i]? = some l.value := by simp [Backend.values, List.getElem?_map, hl]
-  unfold getProofByHash
+  unfold getProofByHash handleProofByHash
   have e1 : ¬ ((b1.leaves.length : Int) < 1) := by omega
-  have e4 : ¬ (run b1 ops).leaves.length < b1.leaves.length := by rw [hx]; simp
-  simp only [e1, if_false, Int.toNat_natCast, e4, hv]
+  have hq : Gen.reqGetInclusionProofByHash (leafH l.value) (b1.leaves.length : Int) = (leafH l.value, (b1.leaves.length : Int)) := rfl
+  have hr : ¬ ((b1.leaves.length : Int) ≤ 0) := by omega
+  have hsz : ¬ (run b1 ops).leaves.length < b1.leaves.length := by omega
+  have hwrap : U64.wrap (b1.leaves.length : Int) = (b1.leaves.length : Int) := by unfold U64.wrap; omega
+  have hguard : Gen.proofByHashRootTooSmall ((run b1 ops).leaves.length : Int) (b1.leaves.length : Int) = false := by
+    simp only [Gen.proofByHashRootTooSmall, hwrap, decide_eq_false_iff_not]; omega
+  simp only [Gen.proofByHashBadSize, Bool.false_or, decide_eq_true_eq, e1, if_false, hq, Backend.rpcProofByHash, hr,
+    Int.toNat_natCast, hsz, hv]
   cases hf : b1.values.findIdx? (fun v => leafH v == leafH l.value) with
   | none =>
     rw [List.findIdx?_eq_none_iff] at hf
@@ -287,6 +333,7 @@ theorem proofByHash_ok (b1 : Backend) (ops : List Op) (i : Nat) (l : Leaf) (hl :
         rw [hvi'] at this; simp at this
       · exact h
     have hjl : j < b1.leaves.length := by omega
+    simp only [List.map_cons, hguard, Bool.false_eq_true, if_false, Gen.relayProofByHash]
     refine ⟨j, _, rfl, hji, ⟨b1.leaves[j], List.getElem?_eq_getElem hjl, ?_⟩, ?_⟩
     · have : b1.values[j] = b1.leaves[j].value := by simp [Backend.values]
       rw [← this]; simpa using hpj
@@ -296,6 +343,14 @@ theorem proofByHash_ok (b1 : Backend) (ops : List Op) (i : Nat) (l : Leaf) (hl :
       have hh : leafH b1.values[j] = leafH l.value := by simpa using hpj
       rw [hh] at this
       exact this
+
+/-- **get-entries serves the stored entries** of the requested range (the range arithmetic and the
+    byte relay are C07's subject). -/
+theorem entries_are_stored (b : Backend) (s e k : Nat) (hk : s + k ≤ e) :
+    (getEntries b s e)[k]? = b.leaves[s + k]? := by
+  unfold getEntries
+  rw [List.getElem?_take, List.getElem?_drop]
+  simp [show k < e + 1 - s by omega]
 
 /-! ## sct_findable -/
 
@@ -332,7 +387,7 @@ theorem sct_findable_partial (ts : Nat) (ops1 ops2 : List Op) (cand : Leaf) :
     let stored := (b0.queue cand).2
     let b2 := run b1 ops2
     stored.idHash = cand.idHash ∧
-    (stored ∈ b2.leaves →
+    (stored ∈ b2.leaves → b2.leaves.length < 2 ^ 63 →
       (∀ x ∈ b2.all, ∀ y ∈ b2.all, leafH x.value = leafH y.value → x.value = y.value) →
       ValuesIdentify b2 →
       ∃ i p, b2.leaves[i]? = some stored ∧
@@ -345,7 +400,7 @@ theorem sct_findable_partial (ts : Nat) (ops1 ops2 : List Op) (cand : Leaf) :
     · exact h
     · show (b0.queue cand).2.idHash = cand.idHash; rw [h]
   refine ⟨hid, ?_⟩
-  intro hmem hinj hvi
+  intro hmem h63 hinj hvi
   have hnd : NodupIds b2 := by
     have h0 : NodupIds b0 := nodupIds_run ops1 _ (nodupIds_init ts)
     have h1 : NodupIds b1 := nodupIds_step b0 (.submit cand) h0
@@ -372,7 +427,7 @@ theorem sct_findable_partial (ts : Nat) (ops1 ops2 : List Op) (cand : Leaf) :
       simp only [Backend.all, List.getElem?_map]
       rw [List.getElem?_append_left hil, hi]; simp
     exact nodup_idx_unique _ j i _ hnd a1 a2
-  obtain ⟨j, p, hp, hji, ⟨l', hl', hh⟩, hver⟩ := proofByHash_ok leafH nodeH emptyH b2 [] i stored hi
+  obtain ⟨j, p, hp, hji, ⟨l', hl', hh⟩, hver⟩ := proofByHash_ok leafH nodeH emptyH b2 [] i stored hi h63
   simp only [run] at hp
   have hje : j = i := huniq j l' hl' hh
   subst hje
